@@ -4,6 +4,8 @@ pub mod c01;
 pub mod c02;
 pub mod c03;
 pub mod c04;
+pub mod c05;
+pub mod c06;
 pub mod c18;
 
 pub fn registry() -> Vec<PropEntry> {
@@ -12,6 +14,8 @@ pub fn registry() -> Vec<PropEntry> {
         PropEntry { id: "C02", run: c02::run, replay: c02::replay },
         PropEntry { id: "C03", run: c03::run, replay: c03::replay },
         PropEntry { id: "C04", run: c04::run, replay: c04::replay },
+        PropEntry { id: "C05", run: c05::run, replay: c05::replay },
+        PropEntry { id: "C06", run: c06::run, replay: c06::replay },
         PropEntry { id: "C18", run: c18::run, replay: c18::replay },
     ]
 }
